@@ -74,7 +74,11 @@ def render(tokens):
 
 
 # layout kept append-only (recorded witnesses index into it): the first 20 templates, the adversarial documents, then templates added later
-SOURCES = tuple(t for t, _ in G.TEMPLATES[:20]) + ADVERSARIAL + tuple(t for t, _ in G.TEMPLATES[20:])
+ADVERSARIAL2 = (
+    "{ me { ...F } } fragment F on User { best { ...F best { ...F } } }",                         # a fragment spreading itself at two depths (a cycle: must be REPORTED, never crash)
+    "{ me { ...F } } fragment F on User { best { ...G } } fragment G on User { friends { ...F best { ...G } } }",
+)
+SOURCES = tuple(t for t, _ in G.TEMPLATES[:20]) + ADVERSARIAL + tuple(t for t, _ in G.TEMPLATES[20:25]) + ADVERSARIAL2 + tuple(t for t, _ in G.TEMPLATES[25:])
 GIVEN = {SOURCES.index(t): v for t, v in G.TEMPLATES}
 VALID_TEMPLATE = frozenset(GIVEN)
 _TOKENS = [tokens_of(s) for s in SOURCES]
@@ -414,7 +418,7 @@ def _nested_conflicts(d1: int, d2: int, style: int, reverse: bool, parent: int, 
 
 CONDITIONS = [
     Cond(
-        name="fragment_reuse", fn=_fragment_reuse, quick=90, thorough=200, per_path=60, shards_quick=16, shards_thorough=16,
+        name="fragment_reuse", fn=_fragment_reuse, quick=150, thorough=200, per_path=60, shards_quick=16, shards_thorough=16,
         bound="one named fragment selecting `best { s1 }` spread at TWO places of one operation (%d places: object, list items, nested object, nested list, abstract field) while only one place also selects a same-key sibling `best { s2 }` "
               "(before or after the spread), %d x %d sub-selections, either place first: validation never raises; when it reports nothing both executors return exactly the reference data (each place gets its own merged sub-selection)" % (len(REUSE_PLACES), len(REUSE_SUB), len(REUSE_SUB)),
         symbolic={"s1,s2": "choice: sub-selections", "p1,p2": "choice: places", "sibling_first,swap,inline": "choice"},
